@@ -226,6 +226,13 @@ def run_classes(ctx, fs, world, repo):
     from . import c05
     c05.run(ctx, ids=("R01-BT-PAIR", "R01-BT-RECOVER", "R01-BT-PRED", "R01-BT-CURSOR"), own=False)
 
+    # ---- atomic rules, predicates and the check API recognise with the check twins: they recognise what the parse twins recognise
+    #      only if the twins agree (C03's instances for pest_typed's nodes)
+    from . import c03
+    rtw = ctx.rule("R01-TWIN", "the check twin of every TypedNode of pest_typed has the effect tree of its parse twin (C03's instances): what an "
+                               "atomic rule or a predicate recognises is what the tree-building twin recognises")
+    c03.twin_rule(ctx, world, rtw, lambda im: im.crate.name == "pest_typed" and im.trait == nodes.TN_TRAIT)
+    rtw.require(100, "twin pairs")
     # ---- implicit skipping and counted repetition are part of what is recognised: C07's and C19's instances
     from . import c07, c19
     ctx.adopt(c07.run, {"R07-PLACE": "R01-SKIP-PLACE", "R07-GIVEBACK": "R01-SKIP-GIVEBACK", "R07-CONST": "R01-SKIP-CONST",
